@@ -14,6 +14,7 @@ import OdlModel.Lemmas.CRat
 import OdlModel.Gen.LincombFront
 import OdlModel.Gen.Broadcast
 import OdlModel.Gen.OpFront
+import OdlModel.Lemmas.OpFront
 
 namespace OdlModel.C01
 open OdlModel.Lincomb OdlModel.Gen.Lincomb
@@ -1198,14 +1199,11 @@ reflected forms only), `NotImplemented` without a field, the writing branch for 
 the space, a scalar (unless `one()` is needed and missing) or a coercible array-like, and a
 refusal (`NotImplemented`; in place `TypeError`) for foreign elements and anything else.
 `hwf`: an element of the space is a `LinearSpaceElement`, and no `LinearSpaceElement` is a
-scalar. By evaluation over all 12 x 2^7 cases. -/
+scalar. By evaluation over all 12 x 2^7 cases (carried out in `Lemmas/OpFront.lean`). -/
 theorem C01.extracted_opfront_is_model (m : Meth) (f : OFacts)
     (hwf : (f.inSpace = true → f.isElem = true) ∧ (f.isElem = true → f.inField = false)) :
-    (progOf m).eval progOf 40 f = some (opFront m f) := by
-  obtain ⟨prio, noField, inSpace, isElem, inField, noOne, coercible⟩ := f
-  cases m <;> cases prio <;> cases noField <;> cases inSpace <;> cases isElem <;>
-    cases inField <;> cases noOne <;> cases coercible <;>
-    first | rfl | exact absurd (hwf.1 rfl) (by decide) | exact absurd (hwf.2 rfl) (by decide)
+    (progOf m).eval progOf 40 f = some (opFront m f) :=
+  OdlModel.Lemmas.OpFront.eval_eq_opFront m f hwf
 
 /-- No operator writes for an operand it cannot combine: the extracted chain reaches a branch
 that calls `space.lincomb / multiply / divide` ONLY if the space has a field and `other` is an
@@ -1219,10 +1217,7 @@ theorem C01.opfront_write_only_if (m : Meth) (f : OFacts)
     f.noField = false ∧ (f.inSpace = true ∨ f.inField = true ∨ f.coercible = true) ∧
       (f.isElem = true → f.inSpace = true) ∧ (m.inPlace = false → f.prio = false) := by
   rw [C01.extracted_opfront_is_model m f hwf] at h
-  obtain ⟨prio, noField, inSpace, isElem, inField, noOne, coercible⟩ := f
-  cases m <;> cases prio <;> cases noField <;> cases inSpace <;> cases isElem <;>
-    cases inField <;> cases noOne <;> cases coercible <;>
-    simp_all [opFront, Meth.delegateTo, Meth.inPlace, Meth.needsOne]
+  exact OdlModel.Lemmas.OpFront.opFront_write_only_if m f hwf (Option.some.inj h)
 
 /-- Non-vacuity: a foreign element in place, a list on the reflected side, a high-priority operand. -/
 example : (progOf .isub).eval progOf 40 ⟨false, false, false, true, false, false, false⟩ = some .typeerror ∧
